@@ -9,6 +9,7 @@ import (
 	"github.com/pingcap/kvproto/pkg/pdpb"
 	"github.com/tikv/pd/server/core"
 	"github.com/tikv/pd/server/schedule/operator"
+	"github.com/tikv/pd/server/schedule/placement"
 	"pdverif/simkit"
 )
 
@@ -291,6 +292,41 @@ func (w *world) buildOps(rs *regState, q *BuildReq) (ops []*operator.Operator, p
 			b.EnableLightWeight()
 		}
 		return one(b.Build(kind))
+	case "demoteLeader":
+		// requested roles derived from the current region: the current leader becomes a learner on its own
+		// store, a learner (or a new peer) is named leader (or is the only voter left that may lead), the other
+		// voters become followers / stay voters, the other learners stay learners
+		if s.r.Leader == 0 {
+			return none("no leader")
+		}
+		roles := map[uint64]placement.PeerRoleType{}
+		other := placement.Follower
+		if q.B%3 == 0 {
+			other = placement.Voter
+		}
+		for _, p := range s.peers {
+			switch {
+			case p.ID == s.r.Leader:
+				roles[p.Store] = placement.Learner
+			case p.Role == simkit.Learner:
+				roles[p.Store] = placement.Learner
+			default:
+				roles[p.Store] = other
+			}
+		}
+		var newLeader uint64
+		if len(s.learner) > 0 && (q.A%2 == 0 || len(s.free) == 0) {
+			newLeader = s.learner[mod(q.A/2, len(s.learner))].Store
+		} else if len(s.free) > 0 {
+			newLeader = s.free[mod(q.A/2, len(s.free))]
+		} else {
+			return none("nobody to promote")
+		}
+		roles[newLeader] = placement.Leader
+		if q.C%4 == 0 {
+			roles[newLeader] = placement.Voter // not named: the followers leave it as the only candidate
+		}
+		return one(operator.CreateMoveRegionOperator(desc, mc, ri, kind|operator.OpRegion, roles))
 	case "split":
 		keys := [][]byte{[]byte(s.r.StartKey + "\x01")}
 		policy := pdpb.CheckPolicy_USEKEY
